@@ -115,7 +115,7 @@ Proof.
   unfold dom_eapb, dom_eap. intros H. bsplit. split; [assumption|]. split; [assumption|].
   destruct (e_data e); cbn in *; bsplit; auto.
   repeat split; try assumption.
-  - eapply forallb_Forall; [apply wf_akattrb_ok|assumption].
+  - eapply forallb_Forall; [intros a Ha; apply wf_wfd; apply wf_akattrb_ok; exact Ha|assumption].
   - now apply nodupb_ok.
 Qed.
 
